@@ -21,7 +21,10 @@ Record obs := mkobs {
 
 Inductive case :=
 | KOne (e : xelf) (base : Z) (r : res (obs * obs))          (* loaded at base 0 and at base *)
-| KLink (m : xelf) (mr : list rel) (l : xelf) (lr : list rel) (r : res obs).
+| KLink (m : xelf) (mr : list rel) (l : xelf) (lr : list rel) (r : res obs)
+| KLinkI (m : xelf) (mr : list rel) (l : xelf) (lr : list rel) (r : res obs)     (* just_interpreter *)
+| KLinkN (m : xelf) (mr : list rel) (libs : list (xelf * list rel)) (r : res obs)
+| KLinkM (m : xelf) (mdy : list (Z * Z)) (mr : list rel) (l : xelf) (ldy : list (Z * Z)) (lr : list rel) (r : res obs).
 
 (* ------------------------------------------------------------------ comparisons *)
 Definition opt_eqb {A} (e : A -> A -> bool) (x y : option A) : bool :=
@@ -55,6 +58,30 @@ Definition model_link (a : arch) (m : elfd) (mr : list rel) (l : elfd) (lr : lis
         (x <- symbols l LIB_BASE ;; y <- symbols m 0 ;; Ok (x ++ y))
         (program_entry m 0).
 
+Definition libs_of (libs : list (xelf * list rel)) : list (elfd * list rel) := map (fun q => (elf_of (fst q), snd q)) libs.
+(* bases of the libraries in DT_NEEDED order: 0x42000000, 0x44000000, ... *)
+Fixpoint lib_bases (n : nat) (b : Z) : list Z := match n with O => [] | S n' => (b + LIB_STEP) :: lib_bases n' (b + LIB_STEP) end.
+Fixpoint cat_res {A} (l : list (res (list A))) : res (list A) :=
+  match l with [] => Ok [] | x :: t => a <- x ;; b <- cat_res t ;; Ok (a ++ b) end.
+Definition model_link_n (a : arch) (m : elfd) (mr : list rel) (libs : list (elfd * list rel)) : obs :=
+  let bs := lib_bases (List.length libs) LIB_BASE0 in
+  mkobs (arch_name a) (arch_big a) (rmap' unlayout (linkn m mr libs))
+        (cat_res (map (fun q => function_entries (fst (fst q)) (snd q)) (combine libs bs) ++ [function_entries m 0]))
+        (cat_res (map (fun q => symbols (fst (fst q)) (snd q)) (combine libs bs) ++ [symbols m 0]))
+        (program_entry m 0).
+
+Definition model_link_i (a : arch) (m : elfd) (mr : list rel) (l : elfd) (lr : list rel) : obs :=
+  mkobs (arch_name a) (arch_big a) (rmap' unlayout (link_interp m mr l lr))
+        (x <- function_entries l LIB_BASE0 ;; y <- function_entries m 0 ;; Ok (x ++ y))
+        (x <- symbols l LIB_BASE0 ;; y <- symbols m 0 ;; Ok (x ++ y))
+        (program_entry m 0).
+
+Definition model_link_m (a : arch) (m : elfd) (mdy : list (Z * Z)) (mr : list rel) (l : elfd) (ldy : list (Z * Z)) (lr : list rel) : obs :=
+  mkobs (arch_name a) (arch_big a) (rmap' unlayout (link2m (e_big m) m mdy mr l ldy lr))
+        (x <- function_entries l LIB_BASE ;; y <- function_entries m 0 ;; Ok (x ++ y))
+        (x <- symbols l LIB_BASE ;; y <- symbols m 0 ;; Ok (x ++ y))
+        (program_entry m 0).
+
 (* component-wise comparison, for diagnosis: arch, endianness, memory, entries, symbols, program entry *)
 Definition obs_parts (a b : obs) : list bool :=
   [String.eqb (o_arch a) (o_arch b); Bool.eqb (o_big a) (o_big b);
@@ -72,6 +99,11 @@ Definition tie_parts (k : case) : list bool :=
   | KLink xm mr xl lr (Ok o) =>
       match arch_of (x_machine xm) (x_big xm) with
       | Ok a => obs_parts (model_link a (elf_of xm) mr (elf_of xl) lr) o
+      | _ => []
+      end
+  | KLinkM xm mdy mr xl ldy lr (Ok o) =>
+      match arch_of (x_machine xm) (x_big xm) with
+      | Ok a => obs_parts (model_link_m a (elf_of xm) mdy mr (elf_of xl) ldy lr) o
       | _ => []
       end
   | _ => []
@@ -96,6 +128,30 @@ Definition tie (k : case) : bool :=
       | Ok a, Err k2 =>
           match link2 m mr (elf_of xl) lr with Err k1 => err_eqb k1 k2 | _ => false end
       | Ok a, Panic => match link2 m mr (elf_of xl) lr with Panic => true | _ => false end
+      | _, _ => false
+      end
+  | KLinkI xm mr xl lr r =>
+      let m := elf_of xm in
+      match arch_of (e_machine m) (e_big m), r with
+      | Ok a, Ok o => obs_eqb (model_link_i a m mr (elf_of xl) lr) o
+      | Ok a, Err k2 => match link_interp m mr (elf_of xl) lr with Err k1 => err_eqb k1 k2 | _ => false end
+      | Ok a, Panic => match link_interp m mr (elf_of xl) lr with Panic => true | _ => false end
+      | _, _ => false
+      end
+  | KLinkN xm mr xlibs r =>
+      let m := elf_of xm in
+      match arch_of (e_machine m) (e_big m), r with
+      | Ok a, Ok o => obs_eqb (model_link_n a m mr (libs_of xlibs)) o
+      | Ok a, Err k2 => match linkn m mr (libs_of xlibs) with Err k1 => err_eqb k1 k2 | _ => false end
+      | Ok a, Panic => match linkn m mr (libs_of xlibs) with Panic => true | _ => false end
+      | _, _ => false
+      end
+  | KLinkM xm mdy mr xl ldy lr r =>
+      let m := elf_of xm in
+      match arch_of (e_machine m) (e_big m), r with
+      | Ok a, Ok o => obs_eqb (model_link_m a m mdy mr (elf_of xl) ldy lr) o
+      | Ok a, Err k2 => match link2m (e_big m) m mdy mr (elf_of xl) ldy lr with Err k1 => err_eqb k1 k2 | _ => false end
+      | Ok a, Panic => match link2m (e_big m) m mdy mr (elf_of xl) ldy lr with Panic => true | _ => false end
       | _, _ => false
       end
   end.
@@ -131,6 +187,23 @@ Definition seg_cell (e : elfd) (ph : phdr) (off : Z) : option (Z * Z) :=
   if off <? p_filesz ph
   then match nth_z (e_file e) (p_offset ph + off) with Some b => Some (b, spec_perms (p_flags ph)) | None => None end
   else Some (0, spec_perms (p_flags ph)).
+
+(* the image of the description at base (later program headers win, as in Elf/ElfProofs.image_at) *)
+Fixpoint image_at_b (file : list Z) (base : Z) (phs : list phdr) (x : Z) : option (Z * Z) :=
+  match phs with
+  | [] => None
+  | ph :: t =>
+      match image_at_b file base t x with
+      | Some r => Some r
+      | None =>
+          if (p_type ph =? 1) && (p_vaddr ph + base <=? x) && (x <? p_vaddr ph + base + p_memsz ph)
+          then (if x - (p_vaddr ph + base) <? p_filesz ph
+                then match nth_z file (p_offset ph + (x - (p_vaddr ph + base))) with
+                     | Some b => Some (b, spec_perms (p_flags ph)) | None => None end
+                else Some (0, spec_perms (p_flags ph)))
+          else None
+      end
+  end.
 
 Definition cell_eqb (x y : option (Z * Z)) : bool :=
   opt_eqb (fun a b => (fst a =? fst b) && (snd a =? snd b)) x y.
@@ -184,6 +257,66 @@ Definition arch_ok (e : elfd) (o : obs) : bool :=
 (* little-endian 32-bit word at x of an observed layout *)
 Definition word_at (m : amap Z) (x : Z) : option Z := read32 false m x.
 
+(* ---- MIPS: the once-rebased address of the symbol a GOT entry / a R_MIPS_REL32 names *)
+Definition is_def_global (t : sym) : bool :=
+  negb (s_shndx t =? 0) && negb (s_value t =? 0) && (((s_info t) / 16 =? 1) || ((s_info t) / 16 =? 2)).
+(* where a name is defined: main (base 0) first, then the library *)
+Definition def_addr (main lib : elfd) (n : string) : option Z :=
+  match find (fun t => String.eqb (s_name t) n && is_def_global t) (e_dynsyms main) with
+  | Some t => Some (s_value t)
+  | None => match find (fun t => String.eqb (s_name t) n && is_def_global t) (e_dynsyms lib) with
+            | Some t => Some (s_value t + LIB_BASE)
+            | None => None
+            end
+  end.
+Definition sym_addr (main lib : elfd) (B : Z) (s : sym) : option Z :=
+  if s_shndx s =? 0 then def_addr main lib (s_name s) else Some (s_value s + B).
+
+Fixpoint got_ok (be : bool) (mem : amap Z) (main lib : elfd) (dynsyms : list sym) (B addr i : Z) (k : nat) : bool :=
+  match k with
+  | O => true
+  | S k' =>
+      match nth_z dynsyms i with
+      | Some s => match sym_addr main lib B s with
+                  | Some v => opt_eqb Z.eqb (read32 be mem addr) (Some (v mod 4294967296))
+                  | None => true
+                  end
+      | None => true
+      end && got_ok be mem main lib dynsyms B (addr + 4) (i + 1) k'
+  end.
+
+(* one object of a MIPS link: every global GOT entry holds the once-rebased address of its symbol; every
+   R_MIPS_REL32 that names a symbol holds addend + that address *)
+Definition mips_obj_ok (be : bool) (mem : amap Z) (main lib e : elfd) (dyns : list (Z * Z)) (rels : list rel) (B : Z) : bool :=
+  match dyn_get dyns 1879048202, dyn_get dyns 1879048211, dyn_get dyns 1879048209, dyn_get dyns 3 with
+  | Some lg, Some gs, Some sn, Some pltgot =>
+      got_ok be mem main lib (e_dynsyms e) B (pltgot + B + lg * 4) gs (Z.to_nat (sn - gs)) &&
+      forallb (fun q =>
+                 if (r_type q =? 3) && negb (r_sym q =? 0) then
+                   match nth_z (e_dynsyms e) (r_sym q) with
+                   | Some s =>
+                       match sym_addr main lib B s,
+                             read32 be (fun x => image_at_b (e_file e) B (e_phdrs e) x) (r_offset q + B) with
+                       | Some v, Some a => opt_eqb Z.eqb (read32 be mem (r_offset q + B)) (Some ((a + v) mod 4294967296))
+                       | _, _ => true
+                       end
+                   | None => true
+                   end
+                 else true) rels
+  | _, _, _, _ => true
+  end.
+
+(* the once-rebased address of the first library (DT_NEEDED order) that defines the name *)
+Fixpoint find_def (n : string) (libs : list (elfd * Z)) : option Z :=
+  match libs with
+  | [] => None
+  | (l, b) :: t =>
+      match find (fun t0 => String.eqb (s_name t0) n && negb (s_shndx t0 =? 0) && negb (s_value t0 =? 0)) (e_dynsyms l) with
+      | Some t0 => Some (s_value t0 + b)
+      | None => find_def n t
+      end
+  end.
+
 Definition oracle (k : case) : bool :=
   match k with
   | KOne x base r =>
@@ -221,6 +354,62 @@ Definition oracle (k : case) : bool :=
                            | None => true
                            end
                          else true) (mr ++ e_pltrelocs m)
+          | _ => false
+          end
+      | _ => true
+      end
+  | KLinkI xm mr xl lr r =>
+      let m := elf_of xm in
+      match r with
+      | Ok o =>
+          match o_mem o with
+          | Ok lay =>
+              forallb (fun q =>
+                         if (r_type q =? 1) || (r_type q =? 6) || (r_type q =? 7) then
+                           match nth_z (e_dynsyms m) (r_sym q) with
+                           | Some s =>
+                               match find_def (s_name s) [(elf_of xl, LIB_BASE0)] with
+                               | Some v => opt_eqb Z.eqb (word_at (amap_of (mem_of lay)) (r_offset q)) (Some (v mod 4294967296))
+                               | None => true
+                               end
+                           | None => true
+                           end
+                         else true) (mr ++ e_pltrelocs m)
+          | _ => false
+          end
+      | _ => true
+      end
+  | KLinkN xm mr xlibs r =>
+      let m := elf_of xm in
+      let libs := combine (map fst (libs_of xlibs)) (lib_bases (List.length xlibs) LIB_BASE0) in
+      match r with
+      | Ok o =>
+          match o_mem o with
+          | Ok lay =>
+              (* reloc_once: every symbolic slot of main holds (value + base) of the first library defining the symbol *)
+              forallb (fun q =>
+                         if (r_type q =? 1) || (r_type q =? 6) || (r_type q =? 7) then
+                           match nth_z (e_dynsyms m) (r_sym q) with
+                           | Some s =>
+                               match find_def (s_name s) libs with
+                               | Some v => opt_eqb Z.eqb (word_at (amap_of (mem_of lay)) (r_offset q)) (Some (v mod 4294967296))
+                               | None => true
+                               end
+                           | None => true
+                           end
+                         else true) (mr ++ e_pltrelocs m)
+          | _ => false
+          end
+      | _ => true
+      end
+  | KLinkM xm mdy mr xl ldy lr r =>
+      let m := elf_of xm in
+      let l := elf_of xl in
+      match r with
+      | Ok o =>
+          match o_mem o with
+          | Ok lay => mips_obj_ok (e_big m) (amap_of (mem_of lay)) m l m mdy mr 0
+                      && mips_obj_ok (e_big m) (amap_of (mem_of lay)) m l l ldy lr LIB_BASE
           | _ => false
           end
       | _ => true
